@@ -47,7 +47,10 @@ impl Engine for E {
             "C16" => {
                 p.cases = if quick { 18_000 } else { 400_000 };
                 p.timeout_s = if quick { 600 } else { 3600 };
-                p.san = vec![SanTier { name: "nodebug", shards: 16, cases: if quick { 1800 } else { 40_000 }, timeout_s: if quick { 600 } else { 3600 }, budget_s: 0 }];
+                p.san = vec![
+                    SanTier { name: "nodebug", shards: 16, cases: if quick { 1800 } else { 40_000 }, timeout_s: if quick { 600 } else { 3600 }, budget_s: 0 },
+                    SanTier { name: "miri", shards: 16, cases: if quick { 8 } else { 400 }, timeout_s: if quick { 1200 } else { 2 * 3600 }, budget_s: if quick { 45 } else { 600 } },
+                ];
                 p.rule = "cases rotate over four kinds: (binary, x2) one registered contract-side type: value round-trip, then its little-endian encoding decoded under truncation at every offset, a 0..255 sweep of the first byte, little-endian length inflation and 200 random mutations, judged for panic, allocation bound, canonicity (byte-exact, or value-exact for the collections documented as unordered); (ordered) 8 rounds of sorted/duplicate/unordered inputs against every ordered and unordered collection decoder, plus 40 rounds of checked arithmetic against 128-bit integers; (text) Display/FromStr round-trips and grammar recognisers on grammar-generated and single-character-mutated strings. evaluations = judged decodes, round-trips, accept/reject comparisons and arithmetic comparisons; distinct_nontrivial = distinct cases of each kind (binary: a mutated input decoded successfully)".into();
                 p.assumptions = vec![
                     "harness recognisers for names, amounts, durations, contract addresses and base58check are transcribed from the doc comments and share no code with the library (sha2 and num-bigint only)".into(),
@@ -93,9 +96,9 @@ impl Engine for E {
                 }
             }
             "C10" => {
-                p.cases = if quick { 1000 } else { 40_000 };
+                p.cases = if quick { 4000 } else { 40_000 };
                 p.timeout_s = if quick { 600 } else { 3600 };
-                p.san = vec![SanTier { name: "nodebug", shards: 16, cases: if quick { 100 } else { 4000 }, timeout_s: if quick { 600 } else { 3600 }, budget_s: 0 }];
+                p.san = vec![SanTier { name: "nodebug", shards: 16, cases: if quick { 400 } else { 4000 }, timeout_s: if quick { 600 } else { 3600 }, budget_s: 0 }];
                 p.rule = "4 of 5 cases: a generated schema Type (nesting <= 32, all constructors and size lengths) with 4 generated conforming values; for each value the JSON input, the expected normal-form JSON and the expected bytes are derived side by side from the same primitives (harness encoder); judged: serial_value(json) == bytes, to_json(bytes) == normal form consuming everything, serial_value(normal form) == bytes; then 16 mutated and 6 random byte strings are converted under the same type (no panic). 1 of 5 cases: a generated module schema V0..V3 through to_bytes/from_bytes, VersionedModuleSchema::new with and without prefix, from_base64_str, and one Type of nesting up to 32 through its binary form. evaluations = judged conversions; distinct_nontrivial = distinct (type, value) pairs with >= 4 bytes, and distinct module schemas".into();
                 p.assumptions = vec![
                     "harness encoder of the contract-side format (little-endian, size lengths, LEB128, enum tags), base58check and base64 are written from the format rules; chrono (shared with the library) renders the expected RFC 3339 text".into(),
